@@ -284,7 +284,7 @@ def eval_cases(ctx, cases):
                     corr("load", "load " + enc_lines(lines), lres, case)
                     oracle.append("read " + enc_lines(lines))
         evals.append(ev)
-    out = ctx.driver("C18", reqs + oracle)
+    out = yield reqs + oracle
     model, spec = out[: len(reqs)], out[len(reqs):]
     for (what, impl, case), rq, m in zip(expect, reqs, model):
         ctx.count("eval_corr_" + what)
@@ -425,7 +425,7 @@ def eval_lines(ctx):
             continue
         _, r = impl_load(H, fl)
         reqs.append("load " + enc_lines(fl)); impl.append(r); what.append("load_malformed")
-    out = ctx.driver("C18", reqs)
+    out = yield reqs
     for rq, i, m, w in zip(reqs, impl, out, what):
         ctx.count("eval_corr_" + w)
         ctx.count("outcome_" + i.split(" ")[0] + ("_" + i.split(" ")[1] if i.startswith("err") else ""))
@@ -441,7 +441,7 @@ def eval_overlaps(ctx):
     for rs in overlap_cases(ctx):
         _, r = impl_build(H, rs)
         reqs.append(LEG + "build " + enc_regions(rs)); impl.append(r)
-    out = ctx.driver("C18", reqs)
+    out = yield reqs
     for rq, i, m in zip(reqs, impl, out):
         ctx.count("eval_corr_overlap")
         ctx.count("overlap_" + i.split(" ")[0])
@@ -450,10 +450,24 @@ def eval_overlaps(ctx):
             ctx.disagree("add_region(overlap)", rq[:300], i[:300], m[:300])
 
 
+def run_batched(ctx, gens):
+    """each generator yields its request lines once and is resumed with the replies:
+    one driver process for the whole check."""
+    reqs, spans = [], []
+    for g in gens:
+        r = next(g)
+        spans.append((len(reqs), len(reqs) + len(r)))
+        reqs += r
+    out = ctx.driver("C18", reqs) if reqs else []
+    for g, (a, b) in zip(gens, spans):
+        try:
+            g.send(out[a:b])
+        except StopIteration:
+            pass
+
+
 def check(ctx):
-    eval_cases(ctx, gen_cases(ctx))
-    eval_overlaps(ctx)
-    eval_lines(ctx)
+    run_batched(ctx, [eval_cases(ctx, gen_cases(ctx)), eval_overlaps(ctx), eval_lines(ctx)])
     ctx.extra_cov["exhaustive"] = False
     ctx.extra_cov["insertion_orders"] = "all permutations for sets of <= 4 regions"
     ctx.extra_cov["reader"] = "Spec.IHex.read (Lean) run on the real saved text of every case; no third-party reader available in the sandbox"
@@ -465,6 +479,6 @@ def replay(ctx, rp):
         c = c["case"]
     if isinstance(c, dict) and "regions" in c:
         rs = [(a, bytes.fromhex(h)) for a, h in c["regions"]]
-        eval_cases(ctx, [(rs, c.get("start", 0), "replay")])
+        run_batched(ctx, [eval_cases(ctx, [(rs, c.get("start", 0), "replay")])])
     else:
         check(ctx)
